@@ -41,6 +41,14 @@ CLAIMED = {
          "Lean 4 theorem (equality with a declarative RFC schema + reference encoder) + differential correspondence", "9/C10"),
  "C11": ("parse_image_wf_core (everything the parser returns satisfies the well-formedness C02/C03 need, clause by clause), reserialise_stable and reparse_idempotent proved under the explicit hypothesis PlainFits (the re-encoded RDATA fits 16 bits), which is proved for every input of at most 65304 bytes or with every RDLENGTH at most 65281; for the remaining inputs the proof attempt produced a genuine counterexample (known finding rdata-expands-past-65535), hence partial.",
          "Lean 4 theorem (parser image satisfies the round-trip precondition) + differential correspondence", "9/C11"),
+ "C04": ("framed (the independent walker consumes the plain and the compressed output of every well-formed packet exactly: counts = entries, OPT once, no other bytes), len_eq_written, W.write_append, writers_agree_plain/compressed (the imperative back-patching writer at any position over any pre-existing content leaves exactly the functional bytes spliced in; record_refinement), small_writer_* (an error, never a panic or a short success) proved; std::io writer behaviour is modelled (trusted) and validated by the correspondence.",
+         "Lean 4 theorem (refinement of the imperative seek/patch writer to the functional encoder) + differential correspondence", "9/C04"),
+ "C07": ("pointers_valid (every name site of the compressed output of a well-formed packet is a valid strictly-backward encoding of the intended name; 14-bit targets), nocompress_in_full / nocompress_types / nocompress_complete, compress_types, repeat_is_pointer, compressName_records, table_monotone, repeated_name_is_pointer (packet level) proved.",
+         "Lean 4 theorem (table invariant threaded through all name sites) + differential correspondence", "9/C07"),
+ "C12": ("observers_total_partial / parsed_then_observed (no modelled observer can panic on any packet), display_never_errs, try_from_iff (String::try_from fails exactly on invalid UTF-8), display_valid_utf8, long_attributes_err_iff proved; partial: std::fmt internals and the lossy text are not modelled, the harness observes them on sampled inputs.",
+         "Lean 4 theorem (totality of the modelled observers) + differential correspondence under catch_unwind", "9/C12"),
+ "C16": ("into_owned_eq for names, values, RDATA, records, questions, packets (hence identical bytes from both serialisers), rr_eq_hash (records equal under the library's == feed the hasher identically), instance_eq_hash (equal instance information hashes equally for every insertion order: sort of permutation-equal duplicate-free lists), hash_ignores_what_eq_ignores proved; the 40 per-type into_owned bodies are tied to the model by the correspondence.",
+         "Lean 4 theorem (field-wise identity, permutation-invariant hash feed) + differential correspondence", "9/C16"),
 }
 PENDING = {f"C{n:02d}": "check not built yet (implementation of DESIGN.md in progress); will be claimed at level proof" for n in range(1, 21)}
 try:
